@@ -8,7 +8,7 @@ ROUTES = ['resize', 'resize_dtype', 'like_kw', 'like_method', 'ctor', 'set_val',
 SRC_BUILDS = ['raw', 'float', 'int', 'indexed']
 RULE = ('source/destination format pairs of the core domain (exhaustive source codes for n_word<=3 quick / <=6 thorough, random and boundary codes up to 52 bits, and codes whose rescaled value sits at the 2^62..2^65 machine boundary), all 10 destination mode pairs, '
         '9 conversion routes (resize by sizes, resize by dtype string, like=, like(), constructor, set_val, call, equal, indexed assignment of Fxp elements), scalar / 1-D / 2-D sources built from raw codes, '
-        'floats, Python ints and indexed elements (hidden vdtype / storage dtype vary), chains of up to 6 conversions. Compared: destination codes with Spec.quantize of the exact source value, shape, dtype string, '
+        'floats, Python ints and indexed elements (hidden vdtype / storage dtype vary), chains of up to 6 conversions; complex sources (values and complex results) through seven routes, each component on its own, read back complex. Compared: destination codes with Spec.quantize of the exact source value, shape, dtype string, '
         'overflow/underflow flags, source unchanged; and with the conversion model. Non-trivial = the conversion changes the value (rounding or overflow); distinct by full input.')
 ASSUMPTIONS = []
 
@@ -189,6 +189,52 @@ def run_cases(cases, res, stratum):
         res.count(stratum, key=repr(c), nontrivial=nontriv, n=len(c['steps']))
         res.sample({k2: c[k2] for k2 in ('s', 'nw', 'nf', 'shape', 'build')} | {'codes': c['codes'][:4], 'steps': c['steps'][:2]})
 
+def complex_cases(rng, n):
+    cases = []
+    for _ in range(n):
+        nw = rng.randint(3, 16); s = True; nf = rng.randint(0, nw - 2); lo, hi = S.fmt_bounds(s, nw)
+        k = rng.choice([1, 2, 3])
+        re = [rng.randint(lo, hi) for _ in range(k)]; im = [rng.randint(lo, hi) for _ in range(k)]
+        dnw = rng.randint(3, 20); dnf = max(-2, min(dnw + 2, nf + rng.choice([-3, -1, 0, 1, 2])))
+        cases.append({'cplx': True, 'nw': nw, 'nf': nf, 're': re, 'im': im, 'shape': [] if k == 1 and rng.random() < 0.5 else [k],
+                      'route': rng.choice(['like_kw', 'like_method', 'ctor', 'set_val', 'call', 'equal', 'resize']), 'ds': True, 'dnw': dnw, 'dnf': dnf,
+                      'r': rng.choice(RMODES), 'o': rng.choice(OMODES), 'src': rng.choice(['value', 'product'])})
+    return cases
+
+def run_complex_conv(cases, res):
+    """a complex source: each component is converted on its own, by every route, and reads back complex"""
+    fx = lib.impl(); import numpy as np
+    pend = []; reqs = []
+    for c in cases:
+        nw, nf = c['nw'], c['nf']; lsb = Fraction(2) ** (-nf)
+        zs = [complex(float(a * lsb), float(b * lsb)) for a, b in zip(c['re'], c['im'])]
+        try:
+            src = fx.Fxp(np.array(zs) if c['shape'] else zs[0], True, nw, nf)
+            if c['src'] == 'product':       # a complex RESULT (its value type is not set by a constructor): same value, times one
+                src = src * fx.Fxp(1, True, 2, 0); nfs = src.n_frac
+            else: nfs = nf
+            d = convert(fx, np, src, c['route'], c['ds'], c['dnw'], c['dnf'], c['r'], c['o'])
+            v = np.asarray(d.val).reshape(-1); g = np.asarray(d.get_val()).reshape(-1)
+            got = {'re': [int(t.real) for t in v], 'im': [int(t.imag) for t in v], 'get': [(Fraction(float(t.real)), Fraction(float(t.imag))) for t in g], 'dtype': d.dtype,
+                   'elem': (lambda e: (complex(e.get_val()), e.dtype))(d[0]) if c['shape'] else None}
+        except Exception as e:
+            res.fail(c, 'C10: converting a complex value raised %s' % lib.exc_name(e), got=str(e)[:200]); continue
+        pend.append((c, got)); f = e_fmt(c['ds'], c['dnw'], c['dnf']); ro = [RMODES.index(c['r']), OMODES.index(c['o'])]
+        reqs.append([4] + f + ro + e_list([Fraction(a) * lsb for a in c['re']], e_dy)); reqs.append([4] + f + ro + e_list([Fraction(b) * lsb for b in c['im']], e_dy))
+    outs = model_call(reqs)
+    for i, (c, got) in enumerate(pend):
+        r1 = Reader(outs[2 * i]); wre = r1.lst(r1.z); r2 = Reader(outs[2 * i + 1]); wim = r2.lst(r2.z)
+        dl = Fraction(2) ** (-c['dnf'])
+        res.count('X:complex-sources', key=repr(c), nontrivial=True, n=2 * len(wre))
+        res.sample(c)
+        if got['re'] != wre or got['im'] != wim:
+            res.fail(c, 'C10: a component of a converted complex value is not the exact source component quantized into the destination (%s)' % c['route'], expected=(wre, wim), got=(got['re'], got['im'])); continue
+        back = [(a * dl, b * dl) for a, b in zip(wre, wim)]
+        if got['get'] != back or not got['dtype'].endswith('-complex'):
+            res.fail(c, 'C10: a converted complex value does not read back complex (imaginary parts dropped) (%s)' % c['route'], expected=[(str(a), str(b)) for a, b in back], got=([(str(a), str(b)) for a, b in got['get']], got['dtype'])); continue
+        if got['elem'] is not None and (Fraction(got['elem'][0].real) != back[0][0] or Fraction(got['elem'][0].imag) != back[0][1] or not got['elem'][1].endswith('-complex')):
+            res.fail(c, 'C10: an element indexed out of a converted complex array is not complex', expected=(str(back[0][0]), str(back[0][1])), got=(str(got['elem'][0]), got['elem'][1]))
+
 def shard(shard, nshards, rng, tier, extra):
     res = Result()
     nwmax = 3 if tier == 'quick' else 6
@@ -207,6 +253,7 @@ def shard(shard, nshards, rng, tier, extra):
     run_cases(cases, res, 'B:random-pairs-routes')
     cases = [extend_chain(rng, gen_case(rng, tier), rng.randint(1, 5)) for _ in range((1200 if tier == 'quick' else 30000) // nshards)]
     run_cases(cases, res, 'C:chains')
+    run_complex_conv(complex_cases(rng, (500 if tier == 'quick' else 12000) // nshards), res)
     res.exhaustive = True
     return res
 
@@ -229,5 +276,7 @@ def shrink(fl):
     return best
 
 def replay(payload):
+    if payload.get('case', {}).get('cplx'):
+        res = Result(); run_complex_conv([payload['case']], res); return {'holds': not res.failures, 'failures': res.failures}
     res = Result(); run_cases([payload['case']], res, 'replay')
     return {'holds': not res.failures, 'failures': res.failures}
